@@ -303,7 +303,9 @@ CLAIMED = {
         "Transcode adapters, symbols without vocabulary and NumPy number kinds are covered by the tie only. Tie: "
         "bounded-exhaustive operator x operand-kind x order layer at depth 1-2 plus random trees to depth 3 (5), 1-3 "
         "statements per sink, nine Transcode/State source forms, two sink forms, HRR d in {4,5} ({3,4,5,8}), VTB/TVTB d in "
-        "{4,16} ({4,9,16}); ill-typed combinations must raise.",
+        "{4,16} ({4,9,16}); ill-typed combinations must raise; translate matrices are computed by the harness (sum of outer "
+        "products over the common keys, target keys held in another order), not taken from transform_to; number-valued "
+        "expression strings as Transcode sources deliver the number times the algebra's own identity.",
         "Trusted: Coq kernel + vm_compute; Model/Dynamic.v and Model/Parse.v (specification evaluator with radicands); "
         "Nengo's builder and Direct-mode simulator as the realisation of 'ideal neurons'; harness (generator, renderers, "
         "Z.sqrt comparator).",
